@@ -112,4 +112,11 @@ CHECKS = {
              'H / h / S assignment with targets taken at temperatures inside and outside 250-500 K, re-assignment of the current value) are logged with H, P, emptiness before and after and TLC judges every step: '
              'H_out = sum H_in + Q within C_flow x 1e-5 K, P = min P, separation leaves the difference, read-back of assigned H / h / S, temperature stays inside the model range, same-value assignment leaves T.',
         note='Trusted: TLC; enthalpy read through the library (C07/C14 cover its meaning); tolerance is ten times the documented solver resolution. Known finding: entropy assignment on liquid phases (noise of the thermo package liquid entropy).'),
+    'C06': dict(
+        engine='ReactEnergy', category='model_checking',
+        technique='TLA+ spec defining the heat of reaction, Hnet and the adiabatic temperature rule over exact rationals (ReactEnergy.tla) model-checked by TLC (enthalpy ledger, dH x reactant = change of Hnet, adiabatic balance, mol/wt consistency); histories on real Reaction / ParallelReaction / SeriesReaction objects and streams validated step by step by TLC',
+        text='TLC explores every single / parallel / series set of two library reactions (mol and wt basis, phase-less and phase-tagged) on four feeds followed by isothermal / adiabatic reactions and re-heating and checks the ledger and '
+             'the definition of dH on the model. Random histories on real objects built from synthetic chemicals with exact enthalpies (load a set, feed a single- or multi-phase stream, query dH of the reaction or of a set member, react, '
+             'adiabatic_reaction with heat input) log material, temperature and Hnet before / after; TLC judges material, dH value, Hnet value, isothermal heat of reaction (where the definition applies), adiabatic balance and temperature.',
+        note='Trusted: TLC; synthetic chemicals only (constant Cn, constant latent heats); ReactionSystem not driven; infeasible conversions out of contract (C05).'),
 }
